@@ -485,6 +485,9 @@ static void zmInvMont(word b[], const word a[], const qr_o* r, void* stack)
 	}
 	// b <- a^{-1} 2^k \mod mod
 	k = zzAlmostInvMod(b, a, r->mod, r->n, stack);
+	// a не обратим (b == 0)?
+	if (wwIsZero(b, r->n))
+		return;
 	ASSERT(wwBitSize(r->mod, r->n) <= k);
 	ASSERT(k <= 2 * wwBitSize(r->mod, r->n));
 	// b <- a^{-1} R^2 \mod mod
@@ -724,6 +727,9 @@ static void zmInvMont2(word b[], const word a[], const qr_o* r, void* stack)
 	}
 	// b <- a^{-1} 2^k \mod mod
 	k = zzAlmostInvMod(b, a, r->mod, r->n, stack);
+	// a не обратим (b == 0)?
+	if (wwIsZero(b, r->n))
+		return;
 	ASSERT(wwBitSize(r->mod, r->n) <= k);
 	ASSERT(k <= 2 * wwBitSize(r->mod, r->n));
 	// b <- a^{-1} R^2 \mod mod
